@@ -146,3 +146,40 @@ package entry
 //@ func (*Entry).IsParent
 //@   requires e != nil && b != nil && typeis(b, "*Entry") && ref(b) != nil
 //@   pure
+
+// ---- entry.go: copying, hashing, signing ----
+//@ define distinctCids(c []cid.Cid) = forall i int, j int :: 0 <= i && i < j && j < len(c) ==> c[i] != c[j]
+//@ define sameCids(a []cid.Cid, b []cid.Cid) = len(a) == len(b) && (forall i int :: 0 <= i && i < len(a) ==> a[i] == b[i])
+
+//@ func uniqueCIDs
+//@   ensures fresh(result) && off(result) == 0 && len(result) <= len(cids)
+//@   ensures distinctCids(result)
+//@   ensures forall j int :: 0 <= j && j < len(cids) ==> exists i int :: 0 <= i && i < len(result) && result[i] == cids[j]
+//@   ensures forall i int :: 0 <= i && i < len(result) ==> exists j int :: 0 <= j && j < len(cids) && result[i] == cids[j]
+//@   ensures distinctCids(cids) ==> sameCids(result, cids)
+//@   loop 0
+//@     invariant fresh(out) && off(out) == 0 && len(out) <= $k && fresh(foundCids)
+//@     invariant distinctCids(out)
+//@     invariant forall s string :: has(foundCids, s) ==> (exists i int :: 0 <= i && i < len(out) && str(out[i]) == s)
+//@     invariant forall i int :: 0 <= i && i < len(out) ==> has(foundCids, str(out[i]))
+//@     invariant forall j int :: 0 <= j && j < $k ==> exists i int :: 0 <= i && i < len(out) && out[i] == cids[j]
+//@     invariant forall i int :: 0 <= i && i < len(out) ==> exists j int :: 0 <= j && j < $k && out[i] == cids[j]
+//@     invariant distinctCids(cids) ==> len(out) == $k && (forall i int :: 0 <= i && i < $k ==> out[i] == cids[i])
+
+//@ func (*Entry).Copy
+//@   requires e != nil
+//@   ensures typeis(result, "*Entry") && fresh(result)
+//@   ensures result.LogID == e.LogID && result.Payload == e.Payload && result.V == e.V && result.Key == e.Key && result.Sig == e.Sig && result.Identity == e.Identity && result.Hash == e.Hash
+//@   ensures e.Clock == nil ==> result.Clock == nil
+//@   ensures e.Clock != nil ==> result.Clock != nil && fresh(result.Clock) && result.Clock.Time == e.Clock.Time && result.Clock.ID == e.Clock.ID
+//@   ensures distinctCids(result.Next) && distinctCids(result.Refs)
+//@   ensures distinctCids(e.Next) ==> sameCids(result.Next, e.Next)
+//@   ensures distinctCids(e.Refs) ==> sameCids(result.Refs, e.Refs)
+//@   ensures forall j int :: 0 <= j && j < len(e.Next) ==> exists i int :: 0 <= i && i < len(result.Next) && result.Next[i] == e.Next[j]
+//@   ensures forall i int :: 0 <= i && i < len(result.Next) ==> exists j int :: 0 <= j && j < len(e.Next) && result.Next[i] == e.Next[j]
+//@   ensures result.AdditionalData != nil && fresh(result.AdditionalData)
+//@   ensures forall k string :: has(result.AdditionalData, k) == has(e.AdditionalData, k) && (has(e.AdditionalData, k) ==> result.AdditionalData[k] == e.AdditionalData[k])
+//@   loop 0
+//@     invariant fresh(additionalData)
+//@     invariant forall k string :: has(additionalData, k) == visited(0)[k]
+//@     invariant forall k string :: visited(0)[k] ==> has(e.AdditionalData, k) && additionalData[k] == e.AdditionalData[k]
